@@ -3,11 +3,11 @@ import os, sys, random
 import hidrun, sasm, coqeval
 from hidrun import Case
 
-PROPS_VO = ['Props/C13.vo']
+PROPS_VO = ['Props/C13.vo', 'Props/C13_layout.vo']
 GEN_ITEMS = ['coq/Gen/GenEscape.v', 'coq/Gen/GenLayout.v']
 LEVEL = 'proof'
 TRUSTED = ['coq/Sphinx/AsmText.v: the strict string/char literal grammar is a model of the Sphinx assembler (a deliberately narrow one)',
-           'pack_bools_spec and the .word/.byte data directives are covered by the behavioural sweep only (not yet by theorem)']
+           'pack_bools_spec, array_size arithmetic proved on the regenerated GenLayout.v (C13_layout.v); .word/.byte data directives and the string table layout are covered by the behavioural sweep only']
 ASSUMPTIONS = ['escape theorems are about the regenerated _escape_bytes; the regenerated function is compared with the real one on every run (translator validation)']
 
 SPECIAL = [0x5c, 0x22, 0x27, 0x0a, 0x0d]
